@@ -100,6 +100,12 @@ impl Prop for C08 {
                 if p.body.len() > 4 {
                     r.nontrivial = true;
                 }
+                // the same message into a buffer of exactly the frame's length
+                let (e3, buf3) = encode_in(&case.env, &case.call, len, |i| 0x90 | (i as u8 & 0x0F));
+                match e3 {
+                    Enc::Ok(n3) if n3 == len && buf3[..len] == buf[..len] => {}
+                    other => r.fail(format!("C08:{}:exact_fit_buffer", kind), format!("into a {}-byte buffer the encoder gives Ok({}) and the frame; into a buffer of exactly {} bytes it gives {:?}", BIG, len, len, other)),
+                }
                 if buf[8] != p.type_byte {
                     r.fail(format!("C08:{}:msg_type", kind), format!("message type byte is {:#04x}, want {:#04x}", buf[8], p.type_byte));
                 }
